@@ -1,5 +1,10 @@
 (* Shapes_Facts.v — flatten as UNNEST (C16) and concatenate (C17): direct structural proofs on the P-model. *)
-From EQL Require Import Base Values Syntax Spec EvalPure EvalPure_Facts OneVar_Facts.
+From EQL Require Import Base Values Syntax Spec Generated EvalPure EvalPure_Facts OneVar_Facts.
+
+(* what counts as ONE element for flatten / concatenate (Values.elements: a str is not iterated, tuples / lists / mappings are) is
+   utils.is_iterable's exclusion list, re-read from the source on every run *)
+Lemma scalar_types_as_modelled : scalar_types = [Ty_str; Ty_type; Ty_bytes; Ty_bytearray].
+Proof. reflexivity. Qed.
 
 Lemma flat_map_map' {A B C} (f : B -> list C) (g : A -> B) l : flat_map f (map g l) = flat_map (fun a => f (g a)) l.
 Proof. induction l as [|a l IH]; simpl; [reflexivity|]. now rewrite IH. Qed.
